@@ -173,8 +173,10 @@ class Machine:
             self.stmt(s, loc)
 
     def stmt(self, s, loc):
-        self.tick()
         k = s[0]
+        if k == 'comment':
+            return
+        self.tick()
         if k == 'expr':
             self.ev(s[1], loc)
         elif k == 'assign':
